@@ -259,22 +259,25 @@ func suiteJob(name, suite string, emit bool) fw.TLCJob {
 		Consts: map[string]string{"SUITE": suite, "EMIT": em}}
 }
 
-// thinning: drive one in N of the generated behaviours of a class (class sizes of the "gen" suite:
-// latch 5041 x 6 component kinds, tunnel 7144 repaired / 3520 as-it-was, Connecting 180 / 48,
-// bridge 3727 / 6976; "genbig": 10^4..10^5 per class).
+// thinning: drive one in N of the generated behaviours of a class. Class sizes of the "gen" suite:
+// latch 8145 (x 6 component kinds), tunnel 7144 repaired / 3520 as-it-was, Connecting 180 / 48,
+// bridge 4648 / 9827; "genbig": latch 28965 (x 6), tunnel 10304 / 12816, bridge 17187 / 39634.
 func thinning(tier, src, scene, start string, legacy bool) int {
 	quick := tier == "quick"
 	if src == "genbig" {
-		return 12
+		if scene == "latch" {
+			return 30
+		}
+		return 15
 	}
 	switch {
 	case scene == "latch":
 		if quick {
-			return 72
+			return 100
 		}
-		return 4
+		return 8
 	case !quick:
-		return 1
+		return 2
 	case scene == "tunnel" && start == "Connecting":
 		if legacy {
 			return 2
@@ -286,9 +289,9 @@ func thinning(tier, src, scene, start string, legacy bool) int {
 		}
 		return 28
 	case legacy: // bridge
-		return 46
+		return 60
 	}
-	return 12
+	return 14
 }
 
 // generated is one line printed by Dispose.tla: the configuration and the behaviour prefix.
